@@ -94,7 +94,7 @@ var theNet *bufnet
 // client, built from a bufconn connection with NewFromConn, the only
 // registered client implementation (under its real name).
 func startNet() {
-	bn := &bufnet{lis: bufconn.Listen(1 << 20), p: &player{scripts: map[string]*script{}}}
+	bn := &bufnet{lis: bufconn.Listen(256 << 10), p: &player{scripts: map[string]*script{}}}
 	bn.srv = grpc.NewServer()
 	pb.RegisterGNMIServer(bn.srv, bn.p)
 	go bn.srv.Serve(bn.lis)
